@@ -302,6 +302,14 @@ def _convert_file_to_config(filepath: str = None, variables_dictionary: dict = g
             vendor_id = application["vendor_id"]
             app_id = application["app_id"]
 
+            #: The spec names constants: a name that is not defined is a
+            #: configuration error, not a lookup failure.
+            for name in (vendor_id, app_id):
+                if name not in variables_dictionary:
+                    raise InvalidConfigValue(f"Invalid config value "\
+                                             f"'{name}' found for "\
+                                             f"config key 'applications'")
+
             application["vendor_id"] = variables_dictionary[vendor_id]
             application["app_id"] = variables_dictionary[app_id]
 
